@@ -2,9 +2,10 @@
    it was recorded from; the formats are documented in the Spec*.v files:
      1  dial limiter            (SpecLimiter.v)
      2  dial worker loop        (SpecWorker.v)
+     4  DefaultDialRanker       (SpecRanker.v)
    No proofs here. *)
 From Coq Require Import List ZArith Bool.
-From Verif Require Import lib.Wire c05.SpecLimiter c05.SpecWorker.
+From Verif Require Import lib.Wire c05.SpecLimiter c05.SpecWorker c05.SpecRanker.
 Import ListNotations.
 Local Open Scope Z_scope.
 
@@ -12,6 +13,7 @@ Definition conform_case (l : list Z) : list Z :=
   match l with
   | 1 :: r => conform_lim_case r
   | 2 :: r => conform_w_case r
+  | 4 :: r => conform_r_case r
   | _ => [ERR_MALFORMED; 0]
   end.
 
@@ -19,5 +21,6 @@ Definition monitor_case (l : list Z) : list Z :=
   match l with
   | 1 :: r => monitor_lim_case r
   | 2 :: r => monitor_w_case r
+  | 4 :: r => monitor_r_case r
   | _ => [ERR_MALFORMED; 0]
   end.
